@@ -90,7 +90,7 @@ def main():
     ap.add_argument("--tier", default=os.environ.get("VERIF_TIER", "quick"))
     ap.add_argument("--replay")
     ap.add_argument("--update-baseline", action="store_true")
-    ap.add_argument("--jobs", type=int, default=int(os.environ.get("VERIF_JOBS", "14")))
+    ap.add_argument("--jobs", type=int, default=int(os.environ.get("VERIF_JOBS", "5")))
     a = ap.parse_args()
     from props import PROPS
     if a.prop not in PROPS:
@@ -106,7 +106,12 @@ def main():
     tmo = cfg.get("timeout_ms", {}).get(tier, 12000 if tier == "quick" else 60000)
     results = []
     native = None
-    canary_contracts = set(cfg.get("canary_contracts", []))
+    from pyvc.contract import Registry as _R
+    import contracts as _contracts
+    _reg = _contracts.load(_R(), mods)
+    # contracts that declare explicit canaries get a canary run of the bounded refuter on every check
+    canary_contracts = set(cfg.get("canary_contracts", [c_ for c_ in cfg["contracts"] if _reg.by_id[c_].canaries]))
+    cfg["_canary_contracts"] = sorted(canary_contracts)
     with cf.ThreadPoolExecutor(max_workers=a.jobs) as ex:
         nfut = None
         if cfg.get("native"):
@@ -172,6 +177,9 @@ def conclude(a, cfg, tier, seed, results, native, t0):
         if mode == "prove":
             functions.append({"contract": r["contract"], "file": r["file"], "qualname": r["qualname"],
                               "sha256": r["sha256"], "paths": r["paths"]})
+            oc = r.get("outcomes", {})
+            if oc.get("normal", 0) > 0 and oc.get("dead_normal", 0) >= oc.get("normal", 0) and r["contract"] not in cfg.get("never_returns", ()):
+                faults.append("%s: every normal-return path has an inconsistent path condition (vacuous proof)" % r["contract"])
             for u in r["undecided_paths"]:
                 undecided.append({"contract": r["contract"], "obligation": r["contract"] + "/<path>", "reason": u})
         else:
@@ -180,9 +188,10 @@ def conclude(a, cfg, tier, seed, results, native, t0):
                     continue
         for o in r["results"]:
             if o["kind"] == "canary":
-                st = canaries.setdefault(o["name"], "not-refuted")
-                if o["status"] == "refuted":
-                    canaries[o["name"]] = "refuted"
+                cur = canaries.get(o["name"])
+                if o["status"] == "refuted" or cur is None or (cur == "dead" and o["status"] == "not-refuted"):
+                    if cur != "refuted":
+                        canaries[o["name"]] = o["status"]
                 continue
             if o["kind"] == "reach":
                 cur = reach.get(o["name"])
@@ -265,14 +274,19 @@ def conclude(a, cfg, tier, seed, results, native, t0):
     if n_obl == 0 and cfg["contracts"]:
         faults.append("zero proof obligations generated")
     for name, st in canaries.items():
-        if st != "refuted":
-            faults.append("canary %s was not refuted: the refutation path of the checker is not working" % name)
+        auto = name.endswith("/canary.normal_return_reachable")
+        if st == "dead" or (st != "refuted" and not auto):
+            faults.append("canary %s was not refuted (%s): %s" % (name, st, "no concrete input reaches a normal return - vacuous contract"
+                          if auto else "the refutation path of the checker is not working or the clause is vacuous"))
     for name, st in reach.items():
         if st == "unreachable":
             faults.append("%s: preconditions are not satisfiable (vacuous contract)" % name)
-    for cid in cfg.get("canary_contracts", []):
-        if not any(k.startswith(cid + "/canary.") for k in canaries):
-            faults.append("contract %s produced no canary" % cid)
+    for cid in cfg.get("_canary_contracts", []):
+        if cid in cfg.get("no_canary", ()):
+            continue
+        if not any(k.startswith(cid + "/canary.") for k in canaries) and not any(
+                r_["contract"] == cid and r_.get("crash") for r_ in results):
+            faults.append("contract %s produced no canary (the refuter did not reach a normal return)" % cid)
 
     # ---- verdict
     os.makedirs(os.path.join(VERIF, "out", "replay"), exist_ok=True)
